@@ -37,9 +37,8 @@ def run_family(c, rec):
     spec = dict(c, mode="vector") if mode == "callable" else c
     refused, built = refuses(lambda: dists.build(spec, conditional=conditional))
     if refused:
-        if mode == "vector" and not conditional:
-            raise Violation(f"constructing {fam} from array parameters failed: {built}")
-        rec.count("construction_refused")
+        # (on the pinned tree every generated parameterisation of every family is accepted)
+        raise Violation(f"constructing {fam} (mode {mode}) from documented parameters failed: {type(built).__name__}: {built}")
         return
     d, ref = built
     x = ref.inside(c["raw"])
@@ -86,7 +85,7 @@ def run_cdf(c, rec):
     spec = dict(c, mode="vector") if mode == "callable" else c
     refused, built = refuses(lambda: dists.build(spec))
     if refused:
-        rec.count("construction_refused")
+        raise Violation(f"constructing {fam} (mode {mode}) from documented parameters failed: {type(built).__name__}: {built}")
         return
     d, ref = built
     x, x2, xo = ref.inside(c["raw"]), ref.inside(c["raw2"]), ref.outside(c["raw"])
@@ -212,9 +211,11 @@ def gauss_cases(draw, tier="quick"):
          "true_size": False,
          # overall scale of the standard deviations: 1, 1e-5 (covariance entries ~1e-10, off-diagonals below 1e-8) or 1e3
          "scale_pow": draw(st.sampled_from([0, 0, 0, -5, 3]))}
-    if tier == "thorough" and draw(st.integers(0, 9)) == 0:
-        # true sizes on both sides of the real threshold (MIN_DIM_SPARSE = 75)
-        n = draw(st.sampled_from([74, 75, 76, 90]))
+    sizes = [40, 60] if tier == "quick" else [40, 60, 74, 75, 76, 90]
+    if draw(st.integers(0, 11 if tier == "quick" else 7)) == 0:
+        # moderate and large true sizes (matrices from a seeded stream instead of generated entries): both sides of the real
+        # threshold MIN_DIM_SPARSE = 75 in the thorough tier, and sizes where determinants leave the double range
+        n = draw(st.sampled_from(sizes))
         c.update(n=n, true_size=True, var=draw(st.lists(gen.logpos(-0.5, 0.5), min_size=n, max_size=n)),
                  G=None, Q=None, mean=draw(gen.vec(n)), x=draw(gen.vec(n)), x2=draw(gen.vec(n)),
                  seedG=draw(st.integers(0, 10 ** 6)))
@@ -350,8 +351,8 @@ def run_gauss(c, rec):
         x, x2 = mu + sc * A(c["x"]), mu + sc * A(c["x2"])
         ref = sps.multivariate_normal(mu, S, allow_singular=False)
         want, want2 = float(ref.logpdf(x)), float(ref.logpdf(x2))
-        if abs(want) > 600:
-            rec.inconc("reference_out_of_range")
+        if not (np.isfinite(want) and np.isfinite(want2)):
+            rec.inconc("reference_not_finite")
             return
         refused, got = refuses(lambda: d.logpdf(x.copy()))
         if refused:
@@ -408,8 +409,7 @@ def reassign_cases(draw, tier="quick"):
             s2[k] = v
         return {"kind": kind, "s1": s1, "s2": s2, "warm": draw(st.booleans())}
     if kind == "gaussian":
-        g = draw(gauss_cases(tier))
-        g["true_size"] = False
+        g = draw(gauss_cases("quick"))   # (the thorough tier's true-size variant carries no generated matrices)
         n = g["n"]
         g2 = dict(g)
         g2["var"] = draw(st.lists(gen.logpos(-1.0, 1.0), min_size=n, max_size=n))
@@ -468,7 +468,7 @@ def run_reassign(c, rec):
         refused, d1 = refuses(lambda: _build_any(kind, s1))
         refused2, d2 = refuses(lambda: _build_any(kind, s2))
         if refused or refused2:
-            rec.count("construction_refused")
+            raise Violation(f"constructing {fam} from documented parameters failed: {d1 if refused else d2}")
             return
         x = dists.Reference(s2).inside(s2["raw"]) if kind == "family" else A(s2["x"])
         if c["warm"]:  # exercise caches before the assignment
@@ -561,6 +561,10 @@ def run_siblings(c, rec):
         tags["bc"] = c["bc"]
     if rec.classify(tags, True):
         return
+    if kind == "gmrf" and c["bc"] == "neumann" and c["order"] == 2:
+        # recorded finding KF-C20-gmrf-rank-neumann2: the log-determinant of this class is numerical garbage (two objects with
+        # identical parameters disagree), so a differential comparison says nothing; the class is decided in C04/gmrf, C20/gmrf
+        c = dict(c, order=1)
     cond, names, direct = must(lambda: _sibling_objects(c), "building the conditional distribution")
     x = np.exp(A(c["x"])) if kind in ("gamma", "lognormal") else A(c["x"])
 
